@@ -114,6 +114,9 @@ def main(argv=None) -> int:
     run_work = str(env.WORK / f"run-{prop}-{os.getpid()}")
     os.makedirs(run_work, exist_ok=True)
     os.environ["VERIF_WORK"] = run_work
+    # a second scratch area on the file system of the system's temp directory
+    # (cases that need two different file systems), removed with the run
+    os.environ["VERIF_TMP_WORK"] = tmp
     results = []
 
     # job list -------------------------------------------------------------
